@@ -57,12 +57,14 @@ func caseGen() *rapid.Generator[Case] {
 				st.Ref = rapid.IntRange(0, 7).Draw(t, "ref")
 				st.Col = rapid.IntRange(0, 7).Draw(t, "ref2")
 				st.Target = rapid.IntRange(0, 2).Draw(t, "followup")
+				st.Via2 = rapid.IntRange(0, 2).Draw(t, "via2") == 0
 			case "reg":
 				st.Owner = rapid.SampledFrom(ownerKinds).Draw(t, "owner")
 				st.Ref = rapid.IntRange(0, 7).Draw(t, "ref")
 				st.Col = rapid.SampledFrom([]int{0, 1, 2, 3, 4, -1, -1}).Draw(t, "col") // -1: the highest column / last cell
 				st.When = rapid.IntRange(0, 3).Draw(t, "when")
 				st.Target = rapid.IntRange(0, 2).Draw(t, "target")
+				st.Via2 = rapid.IntRange(0, 4).Draw(t, "via2") == 0
 			case "render":
 				st.Via = rapid.SampledFrom([]string{"invoke", "csv"}).Draw(t, "via")
 			}
